@@ -53,3 +53,63 @@ package check
 //@   params q n
 //@   requires q != nil && n != nil
 //@   ensures[theorem] implies(factsHold(q) && result == nil, wval(condOf(n)) == 1)
+
+// ---- C01 / C02: the fact-based prover's building blocks ----
+// Language semantics (assumed; the definition of the comparison operators and of
+// constant expressions): a comparison node is 1 exactly when the comparison holds
+// of its operands; an expression with a constant value has that value.
+//@ spec isCmp(op t.ID) bool = op == t.IDXBinaryNotEq || op == t.IDXBinaryLessThan || op == t.IDXBinaryLessEq || op == t.IDXBinaryEqEq || op == t.IDXBinaryGreaterEq || op == t.IDXBinaryGreaterThan
+//@ axiom cmpsem(e *a.Expr): implies(e != nil && isCmp(opOf(e)), lhsOf(e) != nil && rhsOf(e) != nil && wval(e) == ite(holds(opOf(e), wval(lhsOf(e)), wval(rhsOf(e))), 1, 0))
+//@ axiom constsem(e *a.Expr): implies(e != nil && cvOf(e) != nil, wval(e) == bigval(cvOf(e)))
+//@ axiom pkginit: zero != nil && one != nil && zero != one && bigval(zero) == 0 && bigval(one) == 1
+
+// inB(b, v): v lies in the (possibly half-infinite) range b.
+//@ spec inB(b bounds, v mathint) bool = (b[0] == nil || bigval(b[0]) <= v) && (b[1] == nil || v <= bigval(b[1]))
+
+// otherHandSide: if it answers (op, thatHS) then n says "thisHS op thatHS".
+//@ func otherHandSide
+//@   prop C01 C02
+//@   pure
+//@   requires n != nil && thisHS != nil
+//@   ensures implies(op != 0, isCmp(op) && thatHS != nil && wval(n) == ite(holds(op, wval(thisHS), wval(thatHS)), 1, 0))
+//@   ensures implies(op == 0, thatHS == nil)
+
+// opImpliesOp: "knowing x < y implies that x != y and x <= y".
+//@ func opImpliesOp
+//@   prop C01 C02
+//@   pure
+//@   ensures implies(result, forallm(x, forallm(y, implies(holds(op0, x, y), holds(op1, x, y)))))
+
+// proveBinaryOpConstValues: a true answer means the comparison holds for every
+// pair of values in the two ranges.
+//@ func proveBinaryOpConstValues
+//@   prop C01 C02
+//@   pure
+//@   requires lb[0] != nil && lb[1] != nil && rb[0] != nil && rb[1] != nil
+//@   ensures implies(ok, forallm(l, forallm(r, implies(inB(lb, l) && inB(rb, r), holds(op, l, r)))))
+
+//@ func add1
+//@   prop C01
+//@   requires i != nil
+//@   ensures fresh(result) && bigval(result) == old(bigval(i)) + 1
+
+//@ func sub1
+//@   prop C01
+//@   requires i != nil
+//@   ensures fresh(result) && bigval(result) == old(bigval(i)) - 1
+
+//@ func errFailedOrNil
+//@   prop C01 C02
+//@   pure
+//@   ensures (result == nil) == ok
+
+// refine: narrowing n's range by the remembered facts is sound: if every fact is
+// true and n's value lies in nb, it lies in the narrowed range.
+//@ spec allHold(z facts) bool = forall(k, 0, len(z), z[k] != nil && wval(z[k]) == 1)
+//@ func (facts).refine
+//@   prop C01
+//@   requires n != nil && forall(k, 0, len(z), z[k] != nil)
+//@   ensures[sound] implies(result1 == nil && allHold(z) && inB(nb, wval(n)), inB(result0, wval(n)))
+//@   loop 1 invariant -1 <= rangeindex && rangeindex < len(z) && forall(k, 0, len(z), z[k] != nil) && unchanged(mem(z))
+//@   loop 1 invariant nb[0] != nil && nb[1] != nil && implies(allHold(z) && inB(atentry(1, nb), wval(n)), inB(nb, wval(n)))
+//@   loop 1 decreases len(z) - rangeindex
